@@ -11,3 +11,11 @@ Inductive fexp :=
   | XAtomKw (name : string)                                           (* Atom("__initial") / Atom("__final") *)
   | XConst (b : bool)
   | XIfZero (a b : fexp).                                             (* a if the count is 0 else b *)
+(* head formulas (theory/head.py): TelClause of two elements, TelNegation, TelNext, TelUntil, TelAtom (keywords), TelConstant *)
+Inductive hexp :=
+  | HxRhs | HxLhs
+  | HxClause (conj : bool) (a b : hexp) | HxNeg (a : hexp)
+  | HxNext (n : cnt) (a : hexp) (weak : bool)
+  | HxUntil (lhs : option hexp) (rhs : hexp) (until : bool)
+  | HxAtomKw (name : string) | HxConst (b : bool)
+  | HxIfZero (a b : hexp).
